@@ -183,6 +183,25 @@ impl Property for C02 {
                     let (hash, len) = content(*c);
                     set_clock(*ts);
                     let mut r = rs.store.open_replica(&nsid)?;
+                    if key.len() % 2 == 1 {
+                        // the same write through `hash_and_insert` (which hashes the bytes itself and does not
+                        // report the number of removed entries)
+                        let res = rt.block_on(r.hash_and_insert(key, author, format!("content-{c}")));
+                        drop(r);
+                        rs.store.close_replica(nsid);
+                        let line = match res {
+                            Ok(_) => "inserted".to_string(),
+                            Err(e) => insert_result(Err(e)),
+                        };
+                        if !seen.contains(&(*a, key.clone())) {
+                            seen.push((*a, key.clone()));
+                        }
+                        lines.push(Line::model(format!("putq 1 {}", honest_tok(&make_entry(ns, author, key, Some(*c), *ts))), line));
+                        let d = dump(&mut rs.store, nsid)?;
+                        lines.push(Line::model("dump 1", d.clone()));
+                        lines.push(Line::oracle("join 1", d));
+                        continue;
+                    }
                     let res = rt.block_on(r.insert(key, author, hash, len));
                     drop(r);
                     rs.store.close_replica(nsid);
